@@ -147,7 +147,7 @@ func genTracePlan(r *rand.Rand, quick bool) *plan.Plan {
 		traces[i].Win = 1 + r.IntN(2)
 	}
 	p.Params["traces"] = traces
-	inc := plan.Incarnation{Boot: "full", SchedSeed: r.Uint64() | 1}
+	inc := plan.Incarnation{Boot: "full", SchedSeed: r.Uint64()>>11 | 1}
 	elapsed := int64(2000) // ops start 2 s after boot
 	adv := func(ms int64) {
 		inc.Ops = append(inc.Ops, plan.Op{Kind: "advance", DurMs: ms})
@@ -199,7 +199,7 @@ func genTracePlan(r *rand.Rand, quick bool) *plan.Plan {
 			inc.Ops = append(inc.Ops, plan.Op{Kind: "shutdown"})
 		}
 		p.Incs = append(p.Incs, inc)
-		inc = plan.Incarnation{Boot: "full", SchedSeed: r.Uint64() | 1}
+		inc = plan.Incarnation{Boot: "full", SchedSeed: r.Uint64()>>11 | 1}
 	}
 	win := map[string]any{"startEpoch": "now-1h", "endEpoch": "now", "queryLanguage": "Splunk QL"}
 	post := func(path string, extra map[string]any, tag map[string]any) {
